@@ -415,6 +415,11 @@ Proof.
   vm_compute in Hin. destruct Hin as [Hin|[Hin|[]]]; discriminate Hin.
 Qed.
 
+(* the fuel of the model's elimination loops always suffices: every round removes at least one candidate from the ballots *)
+Theorem C05_hybrid_fuel : forall (fx : bool) (votes : rvotes) (n : nat),
+  wf_votes votes = true -> benham fx votes <> H_fuel /\ tideman_alt fx votes n <> H_fuel.
+Proof. intros fx votes n Hwf. split; [exact (benham_fuel fx votes Hwf)|exact (tideman_fuel fx votes n Hwf)]. Qed.
+
 (* non-vacuity: a three-candidate cycle above a fourth candidate, no Condorcet winner; both hybrids go through an elimination
    round and elect a member of the Smith set {1, 2, 3}; the witness of the refutation is repaired by the fix (refusal) *)
 Definition C05_hybrid_example : rvotes :=
@@ -472,3 +477,4 @@ Print Assumptions C05_cw_tideman.
 Print Assumptions C05_smith_tideman.
 Print Assumptions C05_smith_benham.
 Print Assumptions C05_smith_benham_refuted.
+Print Assumptions C05_hybrid_fuel.
